@@ -483,11 +483,19 @@ def check_rectio_sol(case, res):
     from frame.netlist.netlist import Netlist
     attrs = dict(producer='rectio.solution_to_netlist', variants=[nd.VARIANTS[i][0] for i in case['mods']])
     doc = nd.build_doc(tuple(case['mods']), [(tuple(m), w) for m, w in case['nets']])
+    boxes_of = dict(case['boxes'])
+    if case.get('names'):
+        # valid module names that a YAML reader resolves to something else when they are written unquoted
+        ren = dict(zip(list(doc['Modules']), case['names']))
+        doc = {'Modules': {ren[k]: v for k, v in doc['Modules'].items()},
+               'Nets': [[ren.get(x, x) if isinstance(x, str) else x for x in e] for e in doc['Nets']]}
+        boxes_of = {ren[k]: v for k, v in boxes_of.items()}
+        attrs['names'] = case['names']
     reset_frame_state()
     n = Netlist(copy.deepcopy(doc))
     before = nd.loaded_model(n)
     result = {}
-    for nm, bi in case['boxes'].items():
+    for nm, bi in boxes_of.items():
         if n.get_module(nm).is_soft:
             result[nm] = [tuple(b) for b in BOXSETS[bi]]
     try:
@@ -536,6 +544,7 @@ LEGAL_MODS = {
     'hard1': {'hard': True, 'rectangles': [[6, 2, 2, 1]]},
     'hardE': {'hard': True, 'rectangles': [[6, 5, 2, 2], [7.5, 5, 1, 1]]},
     'fixed1': {'fixed': True, 'rectangles': [[2, 6.5, 1, 1]]},
+    'hardE_flip': {'hard': True, 'flip': True, 'rectangles': [[6, 5, 2, 2], [7.5, 5, 1, 1]]},
     # fixed modules with branches (a trunk and one / two branches)
     'fixedN': {'fixed': True, 'rectangles': [[4.5, 6.5, 2, 1], [4.5, 7.25, 1, 0.5]]},
     'fixedNW': {'fixed': True, 'rectangles': [[4.5, 6.5, 2, 1], [4.5, 7.25, 1, 0.5], [3.25, 6.5, 0.5, 0.5]]},
@@ -546,15 +555,16 @@ def check_legal(case, res):
     import tools.legalfloor.legalfloor as lf
     from frame.netlist.netlist import Netlist
     attrs = dict(producer='legalfloor.get_netlist', mods=case['mods'])
-    doc = {'Modules': {f'M{i}': copy.deepcopy(LEGAL_MODS[k]) for i, k in enumerate(case['mods'])},
-           'Nets': [[f'M{i}' for i in mem] + ([w] if w != 1 else []) for mem, w in case['nets']]}
+    names = case.get('names') or [f'M{i}' for i in range(len(case['mods']))]
+    doc = {'Modules': {names[i]: copy.deepcopy(LEGAL_MODS[k]) for i, k in enumerate(case['mods'])},
+           'Nets': [[names[i] for i in mem] + ([w] if w != 1 else []) for mem, w in case['nets']]}
     reset_frame_state()
     n = Netlist(copy.deepcopy(doc))
     before = nd.loaded_model(n)
     try:
         with quiet():
             ml, al, xl, yl, wl, hl, hyper, og = lf.netlist_to_utils(n)
-            model = lf.Model(ml, al, xl, yl, wl, hl, 8.0, 8.0, hyper, 3.0, og, 0.9, 0.3, 1.0, None)
+            model = lf.Model(ml, al, xl, yl, wl, hl, 8.0, 8.0, hyper, 3.0, og, 0.9, 0.3, 1.0, None, {m_.name for m_ in n.modules if m_.flip})   # as legalfloor.main builds it
             n1 = model.get_netlist()
             t1 = n1.write_yaml()
             t2 = model.get_netlist().write_yaml()
@@ -567,8 +577,7 @@ def check_legal(case, res):
     after = nd.loaded_model(n1)
     exp = copy.deepcopy(before)
     for nm in exp['order']:
-        exp['modules'][nm]['ar'] = None
-        exp['modules'][nm]['flip'] = False
+        exp['modules'][nm]['ar'] = None         # (aspect-ratio bounds are not among the things C19 lists; 'flippable' is a kind)
     for (field, ev, gv) in nd.compare_models(exp, after):
         res.violation('says-different', case, dict(attrs, what=field), ev, gv)
     res.case('legal', nontrivial=True)
@@ -580,15 +589,16 @@ def check_legal_solved(case, res):
     import tools.legalfloor.legalfloor as lf
     from frame.netlist.netlist import Netlist
     attrs = dict(producer='legalfloor.solved', mods=case['mods'])
-    doc = {'Modules': {f'M{i}': copy.deepcopy(LEGAL_MODS[k]) for i, k in enumerate(case['mods'])},
-           'Nets': [[f'M{i}' for i in mem] + ([w] if w != 1 else []) for mem, w in case['nets']]}
+    names = case.get('names') or [f'M{i}' for i in range(len(case['mods']))]
+    doc = {'Modules': {names[i]: copy.deepcopy(LEGAL_MODS[k]) for i, k in enumerate(case['mods'])},
+           'Nets': [[names[i] for i in mem] + ([w] if w != 1 else []) for mem, w in case['nets']]}
     reset_frame_state()
     n = Netlist(copy.deepcopy(doc))
     before = nd.loaded_model(n)
     try:
         with quiet():
             ml, al, xl, yl, wl, hl, hyper, og = lf.netlist_to_utils(n)
-            model = lf.Model(ml, al, xl, yl, wl, hl, 8.0, 8.0, hyper, 3.0, og, 0.9, 0.3, 1.0, None)
+            model = lf.Model(ml, al, xl, yl, wl, hl, 8.0, 8.0, hyper, 3.0, og, 0.9, 0.3, 1.0, None, {m_.name for m_ in n.modules if m_.flip})   # as legalfloor.main builds it
             lf.turn_off_flag(1)
             model.apply_objective_function()
     except Exception as e:  # noqa
@@ -728,6 +738,9 @@ def rectio_cases(tier):
                     if (a + b + bi) % 3 and tier == 'quick':
                         continue
                     out.append(dict(kind='rectio_sol', mods=[a, b], nets=nets, boxes={'M0': bi, 'M1': (bi + 1) % len(BOXSETS)}))
+    for names in (['true', 'Null'], ['NULL', 'False'], ['yes', 'n'], ['e1', '_1']):
+        for (a, b) in ((nd.VIDX['s_ctr'], nd.VIDX['h_stog']), (nd.VIDX['s_rect'], nd.VIDX['t_ctr'])):
+            out.append(dict(kind='rectio_sol', mods=[a, b], nets=[[[0, 1], 2]], boxes={'M0': 0, 'M1': 1}, names=names))
     return out
 
 
@@ -739,6 +752,8 @@ def legal_cases(tier):
             out.append(dict(kind='legal', mods=[a, b], nets=[[[0, 1], w]]))
     out.append(dict(kind='legal', mods=['soft1', 'hard1', 'fixed1'], nets=[[[0, 1, 2], 2.5], [[0, 2], 1]]))
     out.append(dict(kind='legal', mods=['softN', 'hardE'], nets=[]))
+    out.append(dict(kind='legal', mods=['soft1', 'hard1'], nets=[[[0, 1], 2]], names=['true', 'Null']))
+    out.append(dict(kind='legal', mods=['softN', 'fixed1'], nets=[[[0, 1], 1]], names=['NULL', 'no']))
     solved = [(['soft1', 'hardE'], [[[0, 1], 2]]), (['softN', 'hard1', 'fixed1'], [[[0, 1, 2], 2.5], [[0, 2], 1]]),
               (['softN', 'hardE', 'fixed1'], [[[0, 1], 1], [[1, 2], 0.5]]), (['soft1', 'softN'], [[[0, 1], 1]]),
               (['hard1', 'hardE'], [[[0, 1], 3]]), (['soft1', 'fixedN'], [[[0, 1], 1]])]
